@@ -222,9 +222,7 @@ func structuredLayouts() []layout {
 		name, kind string
 		at         int
 	}{{"missing-middle", "missing", 1}, {"missing-first", "missing", 0}, {"garbage-middle", "garbage", 1},
-		{"garbage-first", "garbage", 0}, {"garbage-last", "garbage", 2}, {"empty-file", "empty", 1}, {"styp-only-file", "styponly", 1}} {
-		// {"tiny-box-file", "tinybox", 1}: a box size below the header size makes mp4ff panic inside readMP4Segment
-		// (start-up panic); the layout joins the set when proposed_fixes/C15-malformed-box-panic.diff is in the tree
+		{"garbage-first", "garbage", 0}, {"garbage-last", "garbage", 2}, {"empty-file", "empty", 1}, {"styp-only-file", "styponly", 1}, {"tiny-box-file", "tinybox", 1}} {
 		r := vrep("V1", 1000, 3, 40, 50, "trex")
 		r.Segs[c.at].Kind = c.kind
 		add(one(c.name, videoSet(r)))
@@ -427,6 +425,22 @@ func structuredLayouts() []layout {
 		img4 := img
 		img4.Reps = []repSpec{mkThumbs(0, 1)}
 		add(one("thumbs-none", videoSet(vrep("V1", 1000, 3, 40, 50, "trex")), img4))
+		// thumbnail track longer / shorter than the loop (6 s): the last image starts inside the loop and
+		// reaches beyond its end; ends exactly; one image too many; too short
+		for _, c := range []struct {
+			name string
+			ts   *uint32
+			dur  uint32
+			n    int
+		}{{"thumbs-overhang-4s", nil, 4, 2}, {"thumbs-overhang-2500ms", p32(1000), 2500, 3}, {"thumbs-overhang-1ms", p32(1000), 2001, 3},
+			{"thumbs-exact-3x2000ms", p32(1000), 2000, 3}, {"thumbs-exact-1x6s", nil, 6, 1}, {"thumbs-one-too-many", nil, 2, 4},
+			{"thumbs-too-short", nil, 2, 2}, {"thumbs-short-by-1ms", p32(1000), 1999, 3}, {"thumbs-overhang-90k", p32(90000), 270001, 2}} {
+			im := img
+			im.StTimescale = c.ts
+			im.Duration = p32(c.dur)
+			im.Reps = []repSpec{mkThumbs(c.n, 1)}
+			add(one(c.name, videoSet(vrep("V1", 1000, 3, 40, 50, "trex")), im))
+		}
 		img5 := img
 		img5.EndNr = p32(2)
 		add(one("thumbs-endnumber", videoSet(vrep("V1", 1000, 3, 40, 50, "trex")), img5))
